@@ -50,6 +50,9 @@ pub enum SubKind {
     Existing,
     Missing,
     MaskedButExisting,
+    /// the existing entry behind 100 "./" components: resources must not grow with the path
+    ExistingLong,
+    MissingLong,
 }
 
 #[derive(Clone, Debug, Serialize, Deserialize)]
@@ -76,7 +79,7 @@ pub fn all_cases() -> Vec<Case> {
         for proc_opt in [ProcOpt::Default, ProcOpt::Hidepid1, ProcOpt::Hidepid2, ProcOpt::HidepidPtraceable, ProcOpt::SubsetPid] {
             for ctor in [Ctor::New, Ctor::TryFromFdPlainOpen, Ctor::CApiGlobal] {
                 for base in [PBase::Root, PBase::SelfBase, PBase::ThreadSelf] {
-                    for sub in [SubKind::Existing, SubKind::Missing, SubKind::MaskedButExisting] {
+                    for sub in [SubKind::Existing, SubKind::Missing, SubKind::MaskedButExisting, SubKind::ExistingLong, SubKind::MissingLong] {
                         for nofile in [64u64, 1024, 65536] {
                             for kcfg in [Kcfg::Full, Kcfg::NoFsopen, Kcfg::NoMountApi, Kcfg::NoOpenat2NoFsopen] {
                                 let op = match (v.len() / 4) % 3 {
@@ -95,8 +98,14 @@ pub fn all_cases() -> Vec<Case> {
     v
 }
 
+const LONG_EXISTING: &str = "./././././././././././././././././././././././././././././././././././././././././././././././././././././././././././././././././././././././././././././././././././././././././././././././././././././status";
+const LONG_MISSING: &str = "./././././././././././././././././././././././././././././././././././././././././././././././././././././././././././././././././././././././././././././././././././././././././././././././././././././does-not-exist";
+
 fn sub_path(c: &Case) -> (&'static str, PBase) {
     match (c.sub, c.base) {
+        (SubKind::ExistingLong, PBase::Root) => ("./././././././././././././././././././././././././././././././././././././././././././././././././././././././././././././././././././././././././././././././././././././././././././././././././././././self", PBase::Root),
+        (SubKind::ExistingLong, b) => (LONG_EXISTING, b),
+        (SubKind::MissingLong, b) => (LONG_MISSING, b),
         (SubKind::Existing, PBase::Root) => ("self", PBase::Root),
         (SubKind::Existing, b) => ("status", b),
         (SubKind::Missing, b) => ("does-not-exist", b),
@@ -184,7 +193,7 @@ pub fn child(case: &Case) -> Report {
         }
         Action::Continue
     });
-    let policy = Policy { observe: true, kinds: false, max_syscalls: 3000, hook: Some(hook), ..Policy::default() };
+    let policy = Policy { observe: true, kinds: false, max_syscalls: 5000, hook: Some(hook), ..Policy::default() };
     let (sub, base) = sub_path(case);
     let path = B::new(sub);
     let (out, masked, call) = with_session(case.kcfg, Some(policy), |s| {
@@ -309,13 +318,13 @@ pub fn judge(case: &Case, rep: &Report, stats: &mut Stats) -> Result<(), Fail> {
     if rep.handle_creations > allowed {
         return Err(mk(format!("unbounded-handle-creation:{}:{:?}", who, case.sub), format!("{} procfs handles were created by a single call (allowed: {})", rep.handle_creations, allowed)));
     }
-    if rep.bound_exceeded || rep.syscalls > 1500 {
+    if rep.bound_exceeded || rep.syscalls > 2500 {
         return Err(mk(format!("too-many-syscalls:{}", who), "the call needed an unbounded number of system calls".into()));
     }
     if rep.peak_fds > 40 {
         return Err(mk(format!("descriptor-pile-up:{}", who), format!("{} descriptors were open at once during the call", rep.peak_fds)));
     }
-    if case.sub == SubKind::Missing {
+    if matches!(case.sub, SubKind::Missing | SubKind::MissingLong) {
         let ok = matches!(&rep.out, Out::Err { kind, errno: Some(e) } if kind == "os" && *e == libc::ENOENT);
         if !ok {
             return Err(mk(format!("missing-path-not-ENOENT:{}:{}", who, rep.out.class()), "a path that does not exist must be reported as ENOENT".into()));
@@ -356,11 +365,11 @@ fn replay(_ctx: &Ctx, _check: &str, case: &Value) -> Result<(), Fail> {
 pub const PROP: Prop = Prop {
     id: "C08",
     level: "exploration",
-    rule: "the full product (enumerated, not sampled: 2 x 5 x 3 x 3 x 3 x 3 x 4 = 3240 cases) of caller privilege {root; uid 65534 without capabilities} x the host /proc of a private mount namespace re-mounted with {default, hidepid=1, hidepid=2, hidepid=ptraceable, subset=pid} x constructor {ProcfsHandle::new(), try_from_fd(open(\"/proc\")), C API global handle} x base x sub-path {existing, missing, existing-but-masked (stat, 1/status, sys/kernel/ostype)} x RLIMIT_NOFILE {64, 1024, 65536} x kernel configuration {full, fsopen -> ENOSYS (open_tree clone of the host mount), whole mount API -> ENOSYS (plain open of /proc), fsopen+openat2 -> ENOSYS}, ops rotating over open / readlink / open_follow. The single call runs under the observing gate: the supervisor counts constructor invocations by their first available stage (fsopen(2), else open_tree(2), else open(\"/proc\")), procfs-root acquisitions (fsmount, open_tree, openat(\"/proc\")), open descriptors at every syscall, and syscalls; beyond 6 handle creations it answers EMFILE so that a runaway call unwinds instead of exhausting the stack. Oracle: at most 2 handle creations per call (3 when the C API's global handle is created by it), <= 40 descriptors open at once, <= 1500 syscalls, no crash/panic, and a missing path => OsError(ENOENT). non-trivial = masked handle, non-default /proc, or a missing/masked path",
+    rule: "the full product (enumerated, not sampled: 2 x 5 x 3 x 3 x 5 x 3 x 4 = 5400 cases) of caller privilege {root; uid 65534 without capabilities} x the host /proc of a private mount namespace re-mounted with {default, hidepid=1, hidepid=2, hidepid=ptraceable, subset=pid} x constructor {ProcfsHandle::new(), try_from_fd(open(\"/proc\")), C API global handle} x base x sub-path {existing, missing, existing-but-masked (stat, 1/status, sys/kernel/ostype), existing and missing behind 100 './' components} x RLIMIT_NOFILE {64, 1024, 65536} x kernel configuration {full, fsopen -> ENOSYS (open_tree clone of the host mount), whole mount API -> ENOSYS (plain open of /proc), fsopen+openat2 -> ENOSYS}, ops rotating over open / readlink / open_follow. The single call runs under the observing gate: the supervisor counts constructor invocations by their first available stage (fsopen(2), else open_tree(2), else open(\"/proc\")), procfs-root acquisitions (fsmount, open_tree, openat(\"/proc\")), open descriptors at every syscall, and syscalls; beyond 6 handle creations it answers EMFILE so that a runaway call unwinds instead of exhausting the stack. Oracle: at most 2 handle creations per call (3 when the C API's global handle is created by it), <= 40 descriptors open at once, <= 2500 syscalls, no crash/panic, and a missing path => OsError(ENOENT). non-trivial = masked handle, non-default /proc, or a missing/masked path",
     assumptions: &["needs CAP_SYS_ADMIN to build the mount namespace and CAP_SETUID to become unprivileged", "missing mount-API entry points are emulated by seccomp ENOSYS on the library's thread"],
     lanes: |_| 16,
     run_lane,
     replay,
-    extra: Some(|_| json!({"exhaustive_scope": "all 3240 combinations of the quantifier's product"})),
+    extra: Some(|_| json!({"exhaustive_scope": "all 5400 combinations of the quantifier's product"})),
     exhaustive: true,
 };
